@@ -58,7 +58,7 @@ fn candidates(n: u16, rng: &mut Rng, thorough: bool) -> Vec<String> {
         }
         p10 = acc;
     }
-    for _ in 0..(if thorough { 300 } else { 100 }) {
+    for _ in 0..(if thorough { 4000 } else { 100 }) {
         vals.push(random_uint(n, rng));
         // wider random values (overflow candidates)
         let wider = *rng.pick(&[8u16, 16, 32, 64, 128, 256]);
